@@ -163,7 +163,7 @@ func c15Build(n int, mask uint64, nested, selective bool, variant string) c15Cas
 }
 
 func checkC15(c *Ctx) {
-	c.rule = "module graphs as directories of .zn files: every digraph (self-loops included) on main + 2 modules (quick) / main + 3 modules (thorough; 4096 graphs) x import style (all / listed) x flat or nested module names (A-B-C -> A/B/C.zn); every module body displays a marker, defines a helper, a type and a method that uses both and calls the methods it imported; the main file calls what it imported. Variants: calling an unlisted name, assigning to an imported method / type, redefining an imported name, missing module, missing library, repeated import of one module, library import, the same library imported by every module of the graph, an imported method reached through an alias / as an argument / from a list / as a method of an object the module handed out (also when the importer has a type and a helper of the same names), methods defined inside a method body (not exported, outer method callable repeatedly), a module file named like the main module. Oracle: module model of the reference evaluator (each reachable body exactly once, dependencies first, before the importer's statements; exports = methods and types, read-only; cycle => error 63; missing module 60, missing library 64); tick budget decides hangs. distinct_nontrivial = distinct (graph, style, variant)"
+	c.rule = "failing imports (missing module / library, collision, cycle, self-import) inside an imported module with and without a 拦截 block of its own, with and without a handler in its importer: the program ends with that error; module graphs as directories of .zn files: every digraph (self-loops included) on main + 2 modules (quick) / main + 3 modules (thorough; 4096 graphs) x import style (all / listed) x flat or nested module names (A-B-C -> A/B/C.zn); every module body displays a marker, defines a helper, a type and a method that uses both and calls the methods it imported; the main file calls what it imported. Variants: calling an unlisted name, assigning to an imported method / type, redefining an imported name, missing module, missing library, repeated import of one module, library import, the same library imported by every module of the graph, an imported method reached through an alias / as an argument / from a list / as a method of an object the module handed out (also when the importer has a type and a helper of the same names), methods defined inside a method body (not exported, outer method callable repeatedly), a module file named like the main module. Oracle: module model of the reference evaluator (each reachable body exactly once, dependencies first, before the importer's statements; exports = methods and types, read-only; cycle => error 63; missing module 60, missing library 64); tick budget decides hangs. distinct_nontrivial = distinct (graph, style, variant)"
 	c.assumptions = []string{"the main file cannot be imported by name, so edges into it are not generated", "selective import of a name the module does not export is not generated (unspecified)"}
 	var cases []c15Case
 	n := c.Pick(3, 4)
@@ -420,6 +420,42 @@ func checkC15(c *Ctx) {
 				c.Violation("modules:private:"+h.name, fmt.Sprintf("%s: outcome %s, expected %s\n--- main.zn\n%s--- 模.zn\n%s", h.name, got, h.want, h.main, h.mod), map[string]interface{}{"req": req})
 			}
 		})
+	}
+	// "a missing module or library is an error" (and so are a cycle and two imports that collide)
+	// wherever the failing 导入 stands - in the main file, in an imported module, in a module that
+	// has a 拦截 block of its own (which handles the exceptions of its statements, not the failure
+	// to load what it imports), behind a relay: the program ends with that error
+	{
+		hdl := "\n拦截异常：\n\t（显示：“模拦截”）\n"
+		mods := map[string]string{
+			"missing-module":  "导入“不存在”\n如何法？\n\t输出 1\n",
+			"missing-library": "导入《@不存在的库》\n如何法？\n\t输出 1\n",
+			"collision":       "导入“甲”之取值\n导入“乙”之取值\n如何法？\n\t输出 1\n",
+			"cycle":           "导入“主”\n如何法？\n\t输出 1\n",
+			"self-import":     "导入“模”\n如何法？\n\t输出 1\n",
+		}
+		wants := map[string]string{"missing-module": "error:60", "missing-library": "error:64", "collision": "error:43", "cycle": "error:63", "self-import": "error:63"}
+		cases2 := []handFiles{}
+		for _, mn := range SortedKeys(mods) {
+			for _, withHandler := range []bool{false, true} {
+				body := mods[mn]
+				tag := "plain"
+				if withHandler {
+					body += "（显示：“模体”）\n" + hdl
+					tag = "module-has-handler"
+				}
+				files := map[string]string{"主.zn": "导入“模”\n输出 “主完”\n", "main.zn": "导入“主”\n输出 “完”\n", "模.zn": body, "甲.zn": "如何取值？\n\t输出 1\n", "乙.zn": "如何取值？\n\t输出 2\n"}
+				cases2 = append(cases2, handFiles{"failing-import/" + mn + "/" + tag, files, wants[mn]})
+				// … and when the importer has a handler too, it is not an exception of *its* statements either
+				files2 := map[string]string{}
+				for k, v := range files {
+					files2[k] = v
+				}
+				files2["主.zn"] = "导入“模”\n输出 “主完”\n\n拦截异常：\n\t输出 “主拦截”\n"
+				cases2 = append(cases2, handFiles{"failing-import/" + mn + "/" + tag + "/importer-has-handler", files2, wants[mn]})
+			}
+		}
+		c.runHandFiles("failing-import", cases2)
 	}
 	reqs := make([]Req, len(cases))
 	for i, cs := range cases {
